@@ -559,7 +559,14 @@ static void case_classes(Rng& r) {
       if (a.is_broadcast() != bc) { violation("classification/hw/is_broadcast", a.to_string()); return; }
       if (a.is_multicast() != mc) { violation("classification/hw/is_multicast", a.to_string()); return; }
       if (a.is_unicast() != (!bc && !mc)) { violation("classification/hw/is_unicast", a.to_string()); return; }
-      cnt("classification:hw"); }
+      cnt("classification:hw");
+      // the same text handed over in character arrays of different sizes (the array-reference constructor): a C string ends at its NUL wherever the array ends
+      std::string t = a.to_string();
+      try { char exact[18]; memcpy(exact, t.c_str(), 18); char big[64]; memset(big, 0, sizeof big); memcpy(big, t.c_str(), t.size()); char noisy[40]; memset(noisy, 'x', sizeof noisy); memcpy(noisy, t.c_str(), t.size() + 1);
+            HWAddress<6> b1(exact), b2(big), b3(noisy); const char* pc = big; HWAddress<6> b4(pc);
+            if (!(b1 == a) || !(b2 == a) || !(b3 == a) || !(b4 == a)) { violation("text-roundtrip/hw/char-array", "HWAddress built from a character array holding '" + t + "' differs from the address (array sizes 18 / 64 zero-filled / 40 with bytes behind the NUL / pointer)"); return; }
+            cnt("text-roundtrip:hw:char-arrays"); }
+      catch (const exception_base& e) { violation("text-reject/hw/char-array", "HWAddress rejected its own textual form '" + t + "' when it was handed over in a character array larger than the text"); return; } }
 }
 
 int main(int argc, char** argv) {
